@@ -136,7 +136,7 @@ def _check_ac(ctx, kind, name, space, dims, shape, masks, masked, K):
         return
     fn = _ac_fn(kind, tuple(dims), masked, K, tuple(shape))
     B = len(masks)
-    for factor in ctx.budget([1.0, 12.0], [1.0, 4.0, 12.0, 40.0]):
+    for factor in ctx.budget([1.0, 12.0, 300.0], [1.0, 4.0, 12.0, 40.0, 300.0]):
         pol = _scale_head(policy, lambda p: p.action_head.action_dist.mapping.weight, factor)
         obs = _cast(ctx, rng.uniform(-1, 1, size=(B, OBS_DIM)))
         keys = jax.random.split(jax.random.key(int(rng.integers(2 ** 31))), K)
@@ -215,8 +215,17 @@ def _check_ac(ctx, kind, name, space, dims, shape, masks, masked, K):
                 m = mask if masked else np.ones(total, bool)
                 off, ok = 0, True
                 for d in dims:
+                    # p_i / sum_allowed p_j, evaluated in log-space (the unmasked probabilities of the
+                    # allowed entries may all underflow when a masked entry dominates)
+                    lg = np.where(m[off:off + d], logits[off:off + d], -np.inf)
+                    e = np.exp(lg - lg.max())
+                    want = e / e.sum()
                     z = float((base[off:off + d] * m[off:off + d]).sum())
-                    want = np.where(m[off:off + d], base[off:off + d] / z, 0.0)
+                    if z > 1e-6:
+                        ok = ok and ctx.close(np.where(m[off:off + d], base[off:off + d] / z, 0.0),
+                                              probs[off:off + d], 16.0)
+                    else:
+                        ctx.count("ac:renormalisation-checked-in-log-space")
                     ok = ok and ctx.close(want, probs[off:off + d], 16.0)
                     off += d
                 if not ok:
@@ -279,7 +288,7 @@ def _check_q(ctx, n, eps, masks, masked, K):
         return
     fn = _q_fn(n, masked, K)
     B = len(masks)
-    for factor in (1.0, 25.0):
+    for factor in (1.0, 25.0, 500.0):   # |q| stays below ~300: exp() of the Float model must not overflow
         pol = _scale_head(policy, lambda p: p.q_network.layers[-1].weight, factor)
         obs = _cast(ctx, rng.uniform(-1, 1, size=(B, OBS_DIM)))
         keys = jax.random.split(jax.random.key(int(rng.integers(2 ** 31))), K)
